@@ -131,7 +131,12 @@ class StmtMixin:
                 elif isinstance(o, Ref) and str(o.cls).startswith("opaque:"):
                     out.extend(self.hooks.opaque_setattr(self, s, o, target.attr, v))
                 elif isinstance(o, FuncRef):
-                    out.append(s)  # function attributes (durable_step's _original_name): not modelled
+                    fa = dict(s.ghost.get("__func_attrs__", {}))   # function attributes (durable_step's _original_name), keyed by the function object
+                    fa[id(o)] = dict(fa.get(id(o), {}), **{target.attr: v})
+                    s.ghost["__func_attrs__"] = fa
+                    s.ghost.setdefault("__func_keepalive__", [])
+                    s.ghost["__func_keepalive__"] = list(s.ghost["__func_keepalive__"]) + [o]
+                    out.append(s)
                 else:
                     raise Unsupported(f"attribute assignment on {o!r}")
             return out
